@@ -155,7 +155,7 @@ class Lock:
 
 def run(cmd, cwd=None, timeout=3600, env=None, input=None):
     e = dict(os.environ)
-    e.update({"CARGO_NET_OFFLINE": "true"})
+    e.update({"CARGO_NET_OFFLINE": "true", "CARGO_TARGET_DIR": os.path.join(HARNESS, "target")})
     if env:
         e.update(env)
     p = subprocess.run(cmd, cwd=cwd, timeout=timeout, env=e, input=input, capture_output=True, text=True)
